@@ -34,7 +34,7 @@ ROWS = [
     P("VecUnit", "Vec<()>", 1, 4, borrows=True, quick=True, note="zero-sized elements"),
     P("VecArrU16x2", "Vec<[u16;2]>", 2, 6, borrows=True), P("VecTupU16", "Vec<(u16,u16)>", 2, 4, borrows=True),
     P("VecZeroS", "Vec<ZeroS>", 4, 4, borrows=True, quick=True), P("VecZTail", "Vec<ZTail>", 4, 4, borrows=True),
-    P("VecZAl32", "Vec<ZAl32>", 32, 3, cap=128, borrows=True), P("VecZUnit", "Vec<ZUnit>", 1, 4, borrows=True),
+    P("VecZAl32", "Vec<ZAl32>", 32, 3, cap=128, borrows=True, quick=True, note="unit 32: padding of more than 16 bytes (seed C01b)"), P("VecZUnit", "Vec<ZUnit>", 1, 4, borrows=True),
     P("VecZE", "Vec<ZE>", 8, 3, borrows=True), P("VecRangeTo", "Vec<RangeTo<u32>>", 4, 4, borrows=True),
     P("VecRangeToArr3", "Vec<RangeTo<[u8;3]>>", 4, 6, borrows=True, quick=True, note="element size 3: not a power of two"),
     P("VecRangeToUnit", "Vec<RangeTo<()>>", 1, 4, borrows=True, note="zero-sized range"),
@@ -62,6 +62,8 @@ ROWS = [
     # derived deep-copy
     P("DeepSVec", "DeepS<Vec<u16>>", 2, 6, borrows=True, quick=True), P("DeepSStr", "DeepS<String>", 1, 6, borrows=True, shapes=3, qshapes=[2]),
     P("DeepSU32", "DeepS<u32>"), P("MentionU16", "Mention<u16>", 2, 6), P("BothC", "Both<Vec<u8>,u16,String>", 2, 5, borrows=True),
+    P("BothBool", "Both<bool,u32,()>", 4, 4, quick=True, note="primitive through its eps method, then aligned data"), P("BothU8", "Both<u8,u32,()>", 4, 4), P("BothOptU8", "Both<Option<u8>,u32,()>", 4, 4, quick=True),
+    P("BothNzU8", "Both<NonZeroU8,u32,()>", 4, 4), P("BothChar", "Both<char,u32,()>", 4, 4), P("BothOptBool", "Both<Option<bool>,u32,()>", 4, 4),
     P("GenC", "Gen<Vec<u16>,2>", 2, 10, borrows=True), P("TupSC", "TupS", 2, 6), P("UnitSC", "UnitS"),
     P("DeepPrimsC", "DeepPrims (#[deep_copy])"),
     P("HoldZUnit", "Hold<ZUnit>", 1, 3, quick=True), P("HoldZAl4", "Hold<ZAl4>", 4, 3, quick=True, note="over-aligned ZST in a parameter field"),
